@@ -60,12 +60,28 @@ class Check(PropertyCheck):
     def generate(self, rng, n, tier):
         yield Scenario(["new", "mark defaults"], {"kind": "defaults"})
         n_search = 25 if tier == "quick" else 250
+        if getattr(self, "in_search", False):
+            n_search = n        # failing-input search: every instance is small enough for the optimum search
         for i in range(n):
             yield self.scenario(rng, tier, search=i < n_search)
 
     def scenario(self, rng: random.Random, tier, search) -> Scenario:
         fam = rng.choice(["classic", "irregular", "recirc", "recirc", "flexible", "ties", "single_machine"])
-        if search:
+        if search and rng.random() < (0.5 if getattr(self, "in_search", False) else 0.15):
+            # contention: a flexible operation that is alone on its machines now, while the successors of other jobs'
+            # short first operations need those machines soon
+            M = 3
+            flex_ms = rng.sample(range(M), 2)
+            other = [m for m in range(M) if m not in flex_ms][0]
+            jobs = [[(flex_ms, rng.randint(3, 6))]]
+            for _ in range(2):
+                job = [([other], rng.randint(1, 2))]
+                for _k in range(rng.randint(1, 2)):
+                    job.append(([rng.choice(flex_ms + [other])], rng.randint(1, 10)))
+                jobs.append(job)
+            rng.shuffle(jobs)
+            family = "flex_contention"
+        elif search:
             family, jobs = gen.gen_instance(rng, fam, max_jobs=3, max_machines=3, max_ops=3, max_dur=5)
             if gen.num_ops(jobs) > 7 and gen.is_flexible(jobs):
                 jobs = [job[:2] for job in jobs]
